@@ -344,12 +344,15 @@ int sqfs_dir_reader_resolve_path(sqfs_dir_reader_t *rd, const char *path,
 			if (ret > 0)
 				return SQFS_ERROR_NO_ENTRY;
 
+			/* compare against exactly one path component; an
+			   entry name with an embedded NUL byte (damaged image)
+			   must not make us look past the end of the path */
 			len = ent->size + 1;
-			ret = strncmp((const char *)ent->name, path, len);
+			ret = (strcspn(path, "/") == len &&
+			       memcmp(ent->name, path, len) == 0) ? 0 : 1;
 			sqfs_free(ent);
 
-			if (ret == 0 &&
-			    (path[len] == '/' || path[len] == '\0')) {
+			if (ret == 0) {
 				path += len;
 				break;
 			}
